@@ -254,7 +254,14 @@ fn judge_state(st: &ClusterState, w: &World, ring: &Ring, ids: &[usize], strats:
                 let loc = st.replica_locator();
                 let got = catch(AssertUnwindSafe(|| {
                     let f = || loc.replicas_for_token(token, &strategy, dc.as_deref(), &TABLE);
-                    (f().len(), f().into_iter().map(|(n, _)| idx(n)).collect::<Vec<usize>>(), f().into_replicas_ordered().into_iter().map(|(n, _)| idx(n)).collect::<Vec<usize>>())
+                    {
+                        // capped drains instead of collect(): nothing is sized by what the driver reports
+                        let cap = topo::node_cap(w.len());
+                        let (it, e1) = topo::drain_capped(f().into_iter().map(|(n, _)| idx(n)), cap);
+                        let (ord, e2) = topo::drain_capped(f().into_replicas_ordered().into_iter().map(|(n, _)| idx(n)), cap);
+                        assert!(!(e1 || e2), "iteration yields more than {cap} elements");
+                        (f().len(), it, ord)
+                    }
                 }));
                 let r = if dc.is_some() { "dc-restricted:" } else { "" };
                 match got {
